@@ -362,3 +362,84 @@ func TestVerifC09Dial(t *testing.T) {
 		}
 	})
 }
+
+// TestVerifC09RelayOnly: no direct candidate answers (packets to it vanish), the peer is
+// reachable under a relay-prefixed candidate only. The relay phase starts when the direct
+// attempts have failed; it must still have time to connect. Run once per check (shard 0): a
+// case takes as long as a silent handshake takes to give up (about 5 s).
+func TestVerifC09RelayOnly(t *testing.T) {
+	rec := verifkit.NewRecorder("C09", "relay-only")
+	defer rec.Flush()
+	if sh, _ := verifkit.Shard(); sh != 0 {
+		return
+	}
+	srv, err := newC09Server()
+	if err != nil {
+		t.Fatalf("listener: %v", err)
+	}
+	defer srv.close()
+	logger := slog.New(slog.NewTextHandler(io.Discard, nil))
+	for _, silent := range [][]string{{"192.0.2.99:4444"}, {"192.0.2.99:4444", "192.0.2.98:4444", "192.0.2.99:4444"}} {
+		srv.reset()
+		cands := append(append([]string(nil), silent...), fmt.Sprintf("turn:127.0.0.1:%d", srv.port))
+		udp, err := net.ListenUDP("udp", &net.UDPAddr{Port: 0})
+		if err != nil {
+			t.Fatalf("udp: %v", err)
+		}
+		p := &Prober{config: ProberConfig{}, logger: logger, udpConn: udp}
+		ctx, cancel := context.WithTimeout(context.Background(), 40*time.Second)
+		t0 := time.Now()
+		var umu sync.Mutex
+		var probeErrs []string
+		conn, err := p.ProbeAndDial(ctx, cands, quictransport.ClientConfig(), quictransport.DefaultClientQUICConfig(), func(u ProbeUpdate) {
+			if u.Err != nil {
+				umu.Lock()
+				probeErrs = append(probeErrs, fmt.Sprintf("%s: %v", u.Addr, u.Err))
+				umu.Unlock()
+			}
+		})
+		dur := time.Since(t0)
+		cancel()
+		umu.Lock()
+		errs := strings.Join(probeErrs, "; ")
+		umu.Unlock()
+		desc := fmt.Sprintf("candidates=%v (%s) probe errors: %s", cands, dur.Round(100*time.Millisecond), errs)
+		local := false
+		for _, marker := range []string{"too many open files", "no buffer space", "cannot allocate memory", "address already in use", "operation not permitted", "network is unreachable"} {
+			if strings.Contains(errs, marker) {
+				local = true
+			}
+		}
+		if local {
+			rec.Class("not-run-local-resource-error")
+			rec.Note("case not judged, local error: %s", errs)
+			p.Close()
+			continue
+		}
+		rec.Eval()
+		if err != nil {
+			p.Close()
+			rec.Fail(t, "no-connection", fmt.Sprintf("ProbeAndDial failed although the peer is reachable under its relay-prefixed candidate: %v | %s", err, desc))
+			return
+		}
+		time.Sleep(500 * time.Millisecond)
+		srv.mu.Lock()
+		open := 0
+		for _, a := range srv.conns {
+			if !a.closed {
+				open++
+			}
+		}
+		srv.mu.Unlock()
+		if open != 1 {
+			conn.CloseWithError(0, "")
+			p.Close()
+			rec.Fail(t, "late-winner-left-open", fmt.Sprintf("%d connections are open on the listener after ProbeAndDial returned the relay connection | %s", open, desc))
+			return
+		}
+		conn.CloseWithError(0, "")
+		p.Close()
+		rec.NonTrivial(strings.Join(cands, ","))
+		rec.Sample(map[string]any{"case": desc})
+	}
+}
